@@ -310,6 +310,11 @@ func GenReq(t *rapid.T, idx int, o ReqOpts) (*wire.Req, *ReqInfo) {
 				}
 				r.Trailers = append(r.Trailers, wire.KV{K: nm, V: v})
 			}
+			if o.TabOWS && rapid.IntRange(0, 3).Draw(t, "trailerFieldOnTwoLines") == 0 {
+				// a declared trailer field sent on two field lines (a list field spread over lines): both reach the handler
+				i := rapid.IntRange(0, len(r.Trailers)-1).Draw(t, "trailerRepeated")
+				r.Trailers = append(r.Trailers, wire.KV{K: r.Trailers[i].K, V: "second-line"})
+			}
 			seps := []string{",", ", "}
 			if o.TabOWS {
 				seps = append(seps, ",\t", " ,\t ") // optional whitespace around list elements is SP or HTAB
